@@ -1,11 +1,13 @@
 #!/bin/sh
 # seedtest.sh <patch.diff> <ID> [<ID>...]: apply a seeded change to /repo, run the quick checks, undo it.
 # Prints one line per check: CAUGHT (exit 1 with VIOLATION) / MISSED (exit 0) / ERROR (other).
+# Evidence files are saved and restored: evidence must describe runs on the unchanged tree only.
 patch="$1"; shift
 cd /verif || exit 2
 if ! git -C /repo diff --quiet; then echo "/repo not clean"; exit 2; fi
 git -C /repo apply "$patch" || { echo "patch does not apply"; exit 2; }
 for id in "$@"; do
+  cp "evidence/$id.json" "/tmp/seedtest_ev_$$_$id.json" 2>/dev/null
   out=$(./check "$id" --tier ${TIER:-quick} 2>&1); rc=$?
   v=$(echo "$out" | grep '^VIOLATION' | head -1)
   case $rc in
@@ -13,5 +15,6 @@ for id in "$@"; do
     0) echo "MISSED $id";;
     *) echo "ERROR $id rc=$rc: $(echo "$out" | tail -2)";;
   esac
+  [ -f "/tmp/seedtest_ev_$$_$id.json" ] && mv "/tmp/seedtest_ev_$$_$id.json" "evidence/$id.json"
 done
 git -C /repo checkout -- .
